@@ -32,7 +32,8 @@ def configs(tier):
         yield {"prof": p, "grid": g[0], "dom": g[1], "modes": m}
     for p_ in sl.AXIS_SETS:
         yield {"prof": p_, "grid": sl.GRIDS[0][0], "dom": sl.GRIDS[0][1], "modes": "full"}
-    odd = [((7, 5), (70.0, 75.0))] if tier == "quick" else [((7, 5), (70.0, 75.0)), ((5, 7), (75.0, 70.0)), ((7, 6), (70.0, 90.0))]
+    # odd / odd and mixed parity (even x odd, odd x even)
+    odd = list(sl.ODD_GRIDS) if tier == "quick" else list(sl.ODD_GRIDS) + [((5, 7), (75.0, 70.0)), ((7, 6), (70.0, 90.0))]
     for p, g in itertools.product(profs, odd):
         yield {"prof": p, "grid": g[0], "dom": g[1], "modes": [64, 64]}
 
@@ -229,6 +230,57 @@ def _halo_one(case, FP=None):
     return {"v": v[:6], "nt": True, "n": cnt[0], "obs": {"worst_rel_err": worst, "towers": len(cells)}}
 
 
+def long_cases(tier):
+    grids = [((256, 6), (1280.0, 60.0))] if tier == "quick" else [((256, 6), (1280.0, 60.0)), ((6, 512), (45.0, 1024.0)), ((8192, 4), (40960.0, 40.0))]
+    for g, off, prof in itertools.product(grids, (0.04, 1e-3, 1e-6, 0.5), ("most_aniso", "mostm_s")):
+        yield {"grid": g[0], "dom": g[1], "offset_cells": off, "prof": prof}
+
+
+def case_long(case):
+    """Towers that are NOT on a node (a few hundredths, thousandths or millionths of a cell off one - coordinates such as
+    500.005 m - or mid-cell), many cells away from the origin on a long grid: moving such a point by whole cells still
+    translates the footprint / the re-centred dispersion output by exactly those cells (every discrete wavenumber's
+    phase factor for a whole-cell move is a root of unity, so this is exact for any base point)."""
+    S0 = sl.solver()
+    nx, ny = case["grid"]
+    dom = tuple(case["dom"])
+    dx, dy = dom[0] / nx, dom[1] / ny
+    z, prof = sl.build_profiles(case["prof"], 4)
+    levels = [2, 4]
+    kw = dict(modes=(nx, ny), halo=0.0, precision="double")
+    off = case["offset_cells"]
+    long_x = nx >= ny
+    n_long = max(nx, ny)
+    base_cell = (3, 1) if long_x else (1, 3)  # (i, j)
+    x0, y0 = (base_cell[0] + off) * dx, (base_cell[1] + (off if off == 0.5 else 0.0)) * dy
+    if not long_x:
+        x0, y0 = (base_cell[0] + (off if off == 0.5 else 0.0)) * dx, (base_cell[1] + off) * dy
+    rng = np.random.default_rng(nx * 7 + ny)
+    q = rng.standard_normal((ny, nx))
+    shifts = [1, 2, n_long // 16 + 1, n_long // 2 - 3, (n_long * 25) // 32, n_long - 8]
+    v = []
+    worst = 0.0
+    n = 0
+    for fp in (True, False):
+        def S(mp):
+            _, c, f = S0(q, z, prof, dom, levels, meas_pt=mp, footprint=fp, **kw)
+            return np.stack([np.asarray(c, dtype=float), np.asarray(f, dtype=float)])
+        ref = S((x0, y0))
+        n += 1
+        for k, K in enumerate(shifts):
+            Kx, Ky = (K, k % min(nx, ny)) if long_x else (k % min(nx, ny), K)
+            got = S((x0 + Kx * dx, y0 + Ky * dy))
+            n += 1
+            want = np.roll(ref, (Ky, Kx), axis=(2, 3)) if fp else np.roll(ref, (-Ky, -Kx), axis=(2, 3))
+            e = sl.relerr(got, want, max(np.abs(want).max(), 1e-300))
+            worst = max(worst, e)
+            if not e <= 1e-9:
+                v.append({"sub": "long-grid", "sig": "long-grid/%s" % ("tower-shift" if fp else "recentre-shift"),
+                          "msg": "%s: point (%.9g, %.9g) m (%.3g cells off a node) moved by (%d,%d) whole cells does not translate the output by those cells: deviation %.2e of the field maximum; case %s"
+                          % ("footprint" if fp else "dispersion re-centring", x0, y0, off, Kx, Ky, e, core.canon(case))})
+    return {"v": v[:4], "nt": True, "n": n, "obs": {"worst_rel_err": float(worst)}}
+
+
 def run(ctx):
     os.environ["VERIF_SEED"] = str(ctx.seed)
     core.warm_numba()
@@ -238,3 +290,4 @@ def run(ctx):
     )
     ctx.run_cases(case_translate, configs(ctx.tier), sub="translation", chunksize=1)
     ctx.run_cases(case_halo, halo_configs(ctx.tier), sub="halo-cropped", chunksize=1)
+    ctx.run_cases(case_long, long_cases(ctx.tier), sub="off-node points on long grids", chunksize=1)
